@@ -334,9 +334,17 @@ func readCompressedJSONLinesFromReader[T any](reader io.Reader, codec Compressio
 		var record T
 		decoder := json.NewDecoder(bytes.NewReader(line))
 		decoder.DisallowUnknownFields()
+		// Decode numbers exactly: a float64 cannot represent every integer a dump may contain.
+		decoder.UseNumber()
 		if err := decoder.Decode(&record); err != nil {
 			decodeErr = fmt.Errorf("decode JSONL record %d: %w", count+1, err)
 			break
+		}
+		if normalizer, ok := any(&record).(jsonNumberNormalizer); ok {
+			if err := normalizer.normalizeJSONNumbers(); err != nil {
+				decodeErr = fmt.Errorf("decode JSONL record %d: %w", count+1, err)
+				break
+			}
 		}
 		if err := decoder.Decode(&struct{}{}); err != io.EOF {
 			if err == nil {
